@@ -15,10 +15,15 @@
 (*   an update() that adopts the operand's value lists for splits the        *)
 (*   receiver lacks instead of copying them: TLC must find OperandIntact      *)
 (*   violated (non-vacuity).                                                 *)
+(*   Refuse: a counting call that ends in a documented error (tree not        *)
+(*   ultrametric with node ages on, foreign namespace, other rooting) leaves  *)
+(*   every variable as it was.  BookkeepFirst = TRUE models a                 *)
+(*   count_splits_on_tree() that adds the weight to the normaliser before the *)
+(*   check that refuses the tree: TLC must find FreqExact violated.           *)
 (*   CacheChecksCount = FALSE: a cache that is not invalidated when trees    *)
 (*   are added - TLC must find CacheFresh violated (non-vacuity).            *)
 EXTENDS SplitDist
-CONSTANTS N, MaxTrees, NW, NT, Observe, ObserveFrom, CacheChecksCount, TrackDist, TrackOperand, AdoptLists
+CONSTANTS N, MaxTrees, NW, NT, Observe, ObserveFrom, CacheChecksCount, TrackDist, TrackOperand, AdoptLists, BookkeepFirst
 VARIABLES rooted, ms, d, cache, out, opnd
 vars == <<rooted, ms, d, cache, out, opnd>>
 
@@ -86,6 +91,9 @@ Update(H, wi) ==
                    ELSE opnd
     /\ out' = [kind |-> "none"]
     /\ UNCHANGED <<rooted, cache>>
+Refuse(wi) ==
+    /\ d' = IF BookkeepFirst /\ TrackDist THEN [d EXCEPT !.sumW = RAdd(@, AllW[wi])] ELSE d
+    /\ UNCHANGED <<rooted, ms, cache, out, opnd>>
 Freq ==
     /\ Observe /\ d.n >= ObserveFrom /\ d.n > 0
     /\ out' = [kind |-> "freq", f |-> View]
@@ -117,6 +125,7 @@ Cred ==
 
 Next == \/ \E H \in Hiers, wi \in 1..NW : CountTree(H, wi)
         \/ \E H \in Hiers, wi \in 1..NW : Update(H, wi)
+        \/ \E wi \in 1..NW : Refuse(wi)
         \/ Freq
         \/ Consensus
         \/ Collapse
